@@ -1020,7 +1020,11 @@ class ParserField:
                 context.handle_error(error)
             return unprovided
 
-    def parse_value(self, value, context: RuntimeContext):
+    # returned by parse_value(excluded_as_absent=True) for a value the 'exclude' policy dropped
+    # (it is an unprovided value: `unprovided(EXCLUDED)` holds)
+    EXCLUDED = type(unprovided)()
+
+    def parse_value(self, value, context: RuntimeContext, excluded_as_absent: bool = False):
         if self.field.deprecated:
             to = (
                 f", use {repr(self.deprecated_to)} instead"
@@ -1093,6 +1097,9 @@ class ParserField:
                         context.handle_error(error)
                     else:
                         context.collect_waring(error.formatted_message)
+                        if excluded_as_absent:
+                            # the caller handles the field as one that was not given
+                            return self.EXCLUDED
                     # return default if provided
                     # return unprovided if no default is set
                     return self.get_default(options=context.options, defer=False)
